@@ -3,7 +3,7 @@ import ast
 
 from .. import AnalysisBroken
 from ..eff import ALL_MUTATORS, RNG_ALLOWED, Effects
-from ..rules import where_of
+from ..rules import baseline_owners, where_of
 from ..terms import head, show, strip, walk
 
 CLAIMED = True
@@ -116,7 +116,7 @@ def run(r, all_functions=False):
     # ---- module-level and class-level state
     gl = [(q, root, e, w) for q in E.funcs for root, e, w in E.direct[q] if root[0] == "glob"]
     for q, root, e, w in gl:
-        ok = root[1] == "pyrepseq.nn._cal_params" and q == "pyrepseq.nn._to_triplets"
+        ok = root[1] == "pyrepseq.nn._cal_params" and baseline_owners(r, q) == {"pyrepseq.nn._to_triplets"}
         rep.ob("C20-GLB", q, ok, "the only module-level store is the audited kdtree parameter block", where_of(r.P, r.P.functions[q], e.node), expected="no store to module-level state",
                found=w, key=f"global store {root[1]}")
     rep.require(len(gl) >= 1, "C20-GLB: the kdtree parameter-block store was not found (anchor vanished)")
